@@ -176,6 +176,7 @@ func pSignVerify(args []string) string {
 }
 
 func rsaSignVerify(ks *cbnt.KeySignature, k *rsa.PrivateKey, other crypto.Signer, msg []byte, r *Rng, all bool) string {
+	all = all && k.Size() <= 256 // larger keys: sampled sweeps
 	if err := ks.Verify(msg); err != nil {
 		return fmt.Sprintf("FAIL sign-hash-mismatch: signature made by SetSignature(scheme=%v, hash=%v) does not verify over the same data: %v",
 			ks.Signature.SigScheme, ks.Signature.HashAlg, err)
@@ -329,7 +330,7 @@ func pBgSignVerify(args []string) string {
 	other := parsePriv(args[1])
 	msg := UnH(args[3])
 	r := NewRng(UnN(args[4]))
-	all := args[5] == "1"
+	all := args[5] == "1" && k.Size() <= 256
 	bg.RandReader = rngReader{r.Fork(1)}
 	var ks bg.KeySignature
 	var err error
@@ -702,7 +703,7 @@ func pPsb(args []string) string {
 		return "skip"
 	}
 	r := NewRng(UnN(args[6]))
-	all := args[7] == "1"
+	all := args[7] == "1" && k.Size() == 256 // 4096-bit sweeps are sampled: about 0.3 ms per verification
 	id := r.Bytes(16)
 	l := buildPSP(r, k, id, conv, payload, gap, tail)
 	keyRaw := psbRootKeyBytes(&k.PublicKey, id, 0, r)
@@ -782,7 +783,7 @@ func pToken(args []string) string {
 	}
 	tail := int(UnN(args[3]))
 	r := NewRng(UnN(args[4]))
-	all := args[5] == "1"
+	all := args[5] == "1" && root.Size() == 256 && tk.Size() <= 256 // 4096-bit sweeps are sampled: about 0.3 ms per verification
 	rootID := r.Bytes(16)
 	rootRaw := psbRootKeyBytes(&root.PublicKey, rootID, 0, r)
 	ks := keySetOf(rootRaw)
